@@ -108,6 +108,18 @@ def marshal(
             # TODO code is redundant
             error.set_bytes_remaining(buffer_iter)
             raise error
+        except StopIteration as stop:
+            # the processor finished on this very byte (it was skipping the padding of a short region)
+            _size, obj = stop.value
+            bytes_remaining = bytes(buffer_iter)
+            if bytes_remaining:
+                error = InputStreamSuperfluousBytesError(
+                    bytes_remaining=bytes_remaining, command_code=command_code
+                )
+                if abort_on_error:
+                    raise error
+                yield WarningEvent(error=error)
+            return obj
 
         # get next byte ahead of time, but we still have to get the events from previous byte
         # this is to know ahead of time, if the buffer is depleted
